@@ -105,11 +105,32 @@ def judge(rep, behaviours, trace):
         b = by_id[tid]
         ev = lines.get(line, {})
         cls = witness_class(lines, line) if action == 'Report' else '-'
+        first_stale = stale_apply_line(lines, tid, line)
+        if first_stale == line:
+            cls = 'stale-at-apply'
+        elif first_stale:
+            cls = 'after-stale-apply'
         sig = 'C07|%s|%s|%s' % (name, action, cls)
         rep.classify(sig, 'first failing step: line %d action %s check %s args %s' % (line, action, name,
                                                                                  ev.get('args')),
                      {'behaviours': [b]})
     return res
+
+
+def stale_apply_line(lines, tid, upto):
+    """first line (<= upto) of behaviour tid on which a parked report took effect although the
+    pair it had named was no longer the current one (judged on the recorded state before it)"""
+    k = upto
+    while k > 1 and lines[k - 1]['t'] == tid and lines[k]['a'] != 'Open':
+        k -= 1
+    # k = the Open line of the behaviour
+    for j in range(k + 1, upto + 1):
+        ev, prev = lines[j], lines[j - 1]
+        if ev['a'] == 'ReportApply':
+            r = prev['st']['pend'][ev['args']['i'] - 1]
+            if r['l'] != prev['st']['leader'] or r['e'] != prev['st']['lepoch'] or not prev['st']['exists']:
+                return j
+    return None
 
 
 def witness_class(lines, line):
@@ -148,6 +169,10 @@ def label_step(lab):
     name, args = graph.parse_label(lab)
     if name == 'MCReport':
         return {'a': 'Report', 'w': args[0], 'ps': args[1], 'pref': args[2]}
+    if name == 'MCReportCheck':
+        return {'a': 'ReportCheck', 'w': args[0], 'ps': args[1]}
+    if name == 'MCReportApply':
+        return {'a': 'ReportApply', 'i': args[0], 'pref': args[1]}
     if name == 'MCShrink':
         return {'a': 'Shrink', 'r': args[0], 'ps': args[1]}
     if name == 'MCExpand':
@@ -185,6 +210,25 @@ def run(rep, tier, seed, replay):
         if not cx:
             raise core.Inconclusive('no counterexample from the defective variant %s: %s' % (cfg, r2['out'][-1500:]))
         directed.append((isr, cx))
+    # 2b. reports that overlap inside ReportLeader (check and effect as separate steps): design check
+    #     with the known finding exempted, TLC's witness of the finding as a directed stimulus
+    r3 = core.tlc_check('MC_Failover.tla', 'MC_Failover_race.cfg', timeout=1500)
+    rep.add_design('MC_Failover_race', r3)
+    r4 = core.tlc_check('MC_Failover.tla', 'MC_Failover_race_taint.cfg', timeout=600, workers=1)
+    rep.cov['design_checks'].append({'config': 'MC_Failover_race_taint.cfg (reachability of the known finding)',
+                                     'violated': r4['violated'], 'distinct_states': r4['distinct'],
+                                     'states_generated': r4['generated'], 'depth': r4['depth'],
+                                     'complete': r4['complete'], 'wall_s': round(r4['wall'], 1)})
+    isr, cx = counterexample(r4['out'])
+    if cx:
+        directed.append((isr, cx))
+        directed.append((isr, cx + [{'a': 'Report', 'w': 'r2', 'ps': 'cur', 'pref': 'none'}]))
+    rsims = core.tlc_simulate('MC_Failover.tla', 'Sim_Failover_race.cfg', 300 if quick else 5000, 10 if quick else 14,
+                              seed + 1000)
+    raceb = []
+    for b in rsims:
+        if len(b) > 1:
+            raceb.append((core.tlaval.state_var(b[0]['body'], 'isr')['__set__'], [s['last'] for s in b[1:]]))
     # 3. every transition of a bounded instance
     g = graph.tlc_dump('MC_Failover.tla', 'MC_Failover_cover.cfg' if quick else 'MC_Failover_cover_thorough.cfg',
                        timeout=1500)
@@ -205,7 +249,7 @@ def run(rep, tier, seed, replay):
         if len(b) > 1:
             simb.append((core.tlaval.state_var(b[0]['body'], 'isr')['__set__'], [s['last'] for s in b[1:]]))
     behaviours = []
-    for isr, steps in directed + cover + simb:
+    for isr, steps in directed + cover + simb + raceb:
         behaviours.append(to_stimulus(isr, steps, len(behaviours) + 1))
     # 5. execute on the real controller, 6. TLC judges
     with core.scratch('c07') as d:
@@ -218,6 +262,7 @@ def run(rep, tier, seed, replay):
     rep.cov['behaviours_directed'] = len(directed)
     rep.cov['behaviours_transition_cover'] = len(cover)
     rep.cov['behaviours_simulated'] = len(simb)
+    rep.cov['behaviours_simulated_overlapping_reports'] = len(raceb)
     rep.cov['distinct_nontrivial'] = len({core.sha([b['cfg'], b['steps']]) for b in behaviours if nontrivial(b)})
     rep.cov['exhaustive'] = ncovered == nedges
     rep.cov['rule'] = ('behaviours = (a) counterexamples of the defective variants (status kept after a failover, '
